@@ -94,6 +94,41 @@ def enum_source(repo: Repo, src: T, py311: bool = True):
     return None
 
 
+def _derived_rows(repo: Repo, site: "Site") -> bool:
+    """`_TABLE = tuple((m, f(m)) for m in E)`: a module table of rows computed from an enum class, one row per member with
+    columns derived from the member.  The site iterating over the table is rewritten as a site iterating over the class, each
+    column replaced by the expression that computes it."""
+    inner = site.source
+    while inner.op == "call" and inner.a[0].op == "builtin" and inner.a[0].a[0] in ("list", "tuple", "iter") and len(inner.a[1]) == 1:
+        inner = inner.a[1][0]
+    if inner.op != "global":
+        return False
+    found = repo.lookup(inner.a[0])
+    if not (found and found[0] == "const"):
+        return False
+    node = found[2]
+    if isinstance(node, ast.Call) and isinstance(node.func, ast.Name) and node.func.id in ("tuple", "list") and len(node.args) == 1 \
+            and not node.keywords:
+        node = node.args[0]
+    if not (isinstance(node, (ast.GeneratorExp, ast.ListComp)) and len(node.generators) == 1 and isinstance(node.elt, ast.Tuple)):
+        return False
+    fr = sym._Frame(sym.Interp(repo), found[1], None, None, sym.Record(), "module-constant", 0, ())
+    ct = fr.eval(node, sym.State({}, {}, ()))
+    if ct.op != "comp" or len(ct.a[2]) != 1 or ct.a[1].op != "tuple":
+        return False
+    elem2, it2, conds2 = ct.a[2][0]
+    if enum_source(repo, it2) is None:
+        return False
+    cols = ct.a[1].a[0]
+    table = {T("sub", (site.elem, const(i))): c for i, c in enumerate(cols)}
+    if any(sym.contains(c, site.elem) and not any(sym.contains(c, k) for k in table) for cs, _ in site.selections for c, _ in cs):
+        return False
+    sub = lambda t: sym.subst(t, table)       # noqa: E731
+    site.selections = [([(sub(c), p) for c, p in cs] + [(c, True) for c in conds2], sub(e)) for cs, e in site.selections]
+    site.source, site.elem = it2, elem2
+    return True
+
+
 def find_sites(repo: Repo, interp: sym.Interp) -> List[Site]:
     sites: List[Site] = []
     seen = set()
@@ -163,6 +198,22 @@ def find_sites(repo: Repo, interp: sym.Interp) -> List[Site]:
                 x = lr.term
                 elemvar, it, conds = x.a[2][0]
                 sites.append(Site(qn, mod.name, lr.lineno, it, elemvar, [([(c, True) for c in conds], x.a[1])]))
+            # `list(filter(lambda m: m.value & word, E))`: the predicate is the selection condition of a comprehension
+            if ci is None and not getattr(fn, "_generated_decoder", False) and "filter" in called:
+                rt_ = rec.return_term()
+                for x in (sym.walk(rt_) if rt_ is not None else ()):
+                    if x.op == "call" and x.a[0] == T("builtin", ("filter",)) and len(x.a[1]) == 2 and not x.a[2] \
+                            and x.a[1][0].op == "lambda" and len(x.a[1][0].a) > 1:
+                        lam = x.a[1][0]
+                        bound_ = {y for y in sym.walk(lam.a[1]) if y.op == "bound" and y.a[1] == lam.a[0]}
+                        if len(bound_) != 1:
+                            continue
+                        key = ("filter", qn, sym.canon(x))
+                        if key in seen:
+                            continue
+                        seen.add(key)
+                        ev_ = bound_.pop()
+                        sites.append(Site(qn, mod.name, fn.lineno, x.a[1][1], ev_, [([(lam.a[1], True)], ev_)]))
             # loop sites: for loops whose body appends / adds the element under conditions
             for lid, lr in rec.loops.items():
                 if lr.kind != "for" or not here(lr) or lr.iter is None:
@@ -438,6 +489,8 @@ def check(repo: Repo, run: Run) -> None:
     n_sites = 0
     for s in sites:
         es = enum_source(repo, s.source)
+        if es is None and _derived_rows(repo, s):
+            es = enum_source(repo, s.source)
         if es is None:
             continue
         s.enum, s.yielded, s.how = es
